@@ -196,12 +196,16 @@ def h_equals(ctx: Ctx) -> None:
                 tests = _enclosing_tests(f.node, n)
                 if not tests:
                     continue  # final `return True` after all tests
-                id_tests = [t for t, pol in tests if 'id(' in norm(t)]
+                def _identity(t: ast.expr) -> bool:
+                    # id(a) == id(b) or `a is b` between the two operands
+                    return 'id(' in norm(t) or any(isinstance(c, ast.Compare) and len(c.ops) == 1 and isinstance(c.ops[0], (ast.Is, ast.IsNot))
+                                                   and {norm(c.left), norm(c.comparators[0])} == {'self', 'other'} for c in ast.walk(t))
+                id_tests = [t for t, pol in tests if _identity(t)]
                 if id_tests:
                     t = id_tests[0]
                     # the identity test itself, possibly conjoined with the method's own Boolean options (`skipna and id(other) == id(self)`)
                     conj = list(t.values) if isinstance(t, ast.BoolOp) and isinstance(t.op, ast.And) else [t]
-                    ident = [x for x in conj if 'id(' in norm(x) or isinstance(x, ast.Compare)]
+                    ident = [x for x in conj if _identity(x) or isinstance(x, ast.Compare)]
                     rest = [x for x in conj if x not in ident]
                     good = len(ident) == 1 and _canon(ident[0]) in ('(id(other) Eq id(self))', '(other Is self)') \
                         and all(isinstance(x, ast.Name) and x.id in f.params for x in rest)
